@@ -536,6 +536,10 @@ func TestVerifC14(t *testing.T) {
 		rec(nil)
 		res.Bound("history_depth", depth)
 	}
+	// ---- M: sequential histories vs the full model, from several pre-states (c14m_test.go)
+	if only == "" || only == "M" {
+		c14mPart(t, img, res)
+	}
 	// ---- F: single storage faults inside write-type calls
 	if only == "" || only == "F" {
 		for _, nonTxn := range []bool{false, true} {
